@@ -583,6 +583,8 @@ def interpret(fn, rep):
         if not okb:
             raise Unab("loop bound %s is not the number of variables" % bound)
         if on_diag and is_lam_d2 and full:
+            if not isinstance(I.env.get(m), Lin):
+                raise Unab("the matrix %s updated on its diagonal is not understood (%s)" % (m, (I.env.get(m) or ("?", "no value"))[1] if isinstance(I.env.get(m), tuple) else "no value"))
             I.env[m] = I.env[m].add(Lin("mat", {("D", "D"): LAM}))
             return
         I.diag_problem = ("the diagonal update of %s is `%s %s %s` over %s <= %s < %s (diagonal entry: %s, full range: %s, value lambda*d_i^2: %s)"
